@@ -556,3 +556,54 @@ def r_shape_safety(repo, rep, mod, fn, R, typed_params=None):
         rep.ok(R, '%s:%s %s' % (mod.rel, fn.lineno, qualname_of(fn)),
                '%s: all %d shape-specific attribute reads on its category parameters are guarded' % (qualname_of(fn), n), nontrivial=n > 0)
     return n
+
+
+def r_instantiation(repo, rep, R):
+    """what uni[key] hands back is the matched category with each atom's feature replaced *as a whole* when that very
+    feature was bound, and left alone otherwise: an atom keeps its base, a functor is rebuilt from its two instantiated
+    sides with its own slash.  (Filling single variables of a three-part feature by name would mix up variables of
+    different atoms: X1 is `mod` in one triple and `case` in another.)"""
+    mod = repo.module(UNI)
+    gi = mod.get('Unification.__getitem__')
+    rec = mod.get('Unification.__getitem__.rec', required=False)
+    w = '%s:%s Unification.__getitem__' % (UNI, gi.lineno)
+    if rec is None or rec is gi:
+        raise AnalysisError('%s: the recursive reader of Unification.__getitem__ was not found' % UNI)
+    p = [a.arg for a in rec.args.args if a.arg != 'self'][0]
+    X = N(p)
+    S_ = N(gi.args.args[0].arg)
+    MAP = A(S_, 'mapping')
+    bound = ('cmp', 'in', A(X, 'feature'), MAP)
+    want_fn = ('call', A(X, 'functor'), (('call', N(rec.name), (A(X, 'left'),), ()), ('call', N(rec.name), (A(X, 'right'),), ())), ())
+    want_hit = ('call', N('Atom'), (A(X, 'base'), ('sub', MAP, A(X, 'feature'))), ())
+    get_form = ('call', N('Atom'), (A(X, 'base'), ('call', A(MAP, 'get'), (A(X, 'feature'), A(X, 'feature')), ())), ())
+    bad = []
+    n = 0
+    for st, out in SymExec(rec, unroll=1, init_env={rec.name: ('func', rec.name, id(rec))}).run():
+        if out != 'return' or st.ret is None:
+            continue
+        n += 1
+        r = st.ret
+        # recursive calls appear as calls of the function value
+        def norm(t):
+            if not isinstance(t, tuple):
+                return t
+            if t and t[0] == 'func' and len(t) >= 2 and t[1] == rec.name:
+                return N(rec.name)
+            return tuple(norm(x) for x in t)
+        r = norm(r)
+        conds = [(c, pol) for c, pol, _ in st.conds]
+        is_fn = any(c == A(X, 'is_functor') and pol for c, pol in conds) or any(c == A(X, 'is_atomic') and not pol for c, pol in conds)
+        hit = [pol for c, pol in conds if c == bound]
+        if r == want_fn and is_fn:
+            continue
+        if r == get_form and not is_fn:
+            continue
+        if r == want_hit and hit and hit[-1]:
+            continue
+        if r == X and not is_fn and hit and not hit[-1]:
+            continue
+        bad.append('%s under %s' % (show(r)[:70], [('' if pol else 'not ') + show(c)[:40] for c, pol in conds][-2:]))
+    rep.check(n >= 2 and not bad, R, w, 'Unification.__getitem__:instantiation',
+              'a bound feature is replaced as a whole, every other atom is handed back unchanged, functors are rebuilt from their two sides (%d paths)' % n,
+              'the matched category is instantiated differently: %s -- features that neither input carries can appear in the result' % bad[:2])
